@@ -39,6 +39,7 @@ similarity variables handed from the pre-shock to the post-shock integration, wh
 import EPV.Gen.RmtvJump
 import EPV.Gen.RmtvRun
 import EPV.Tactics
+import EPV.Lemmas.Bridge.SemiGud
 
 set_option linter.all false
 
@@ -58,23 +59,24 @@ theorem rmtv_jump_leaves : RmtvJump.okLeaves = [0] := rfl
 
 theorem rmtv_jump_mass (p : RmtvJump.P) (hU : 1 - p.U2 ≠ 0) (hT : p.T2 ≠ 0) :
     rmtvMassFlux (RmtvJump.H1 p) (RmtvJump.U1 p) = rmtvMassFlux p.H2 p.U2 := by
-  simp only [rmtvMassFlux, epv_tree, epv_leaf]
+  simp only [rmtvMassFlux, Bridge.SemiGud.rmtv_H1, Bridge.SemiGud.rmtv_U1]
   field_simp
   ring
 
 theorem rmtv_jump_momentum (p : RmtvJump.P) (hU : 1 - p.U2 ≠ 0) (hT : p.T2 ≠ 0) :
     rmtvMomFlux (RmtvJump.H1 p) (RmtvJump.U1 p) (RmtvJump.T1 p) = rmtvMomFlux p.H2 p.U2 p.T2 := by
-  simp only [rmtvMomFlux, epv_tree, epv_leaf]
+  simp only [rmtvMomFlux, Bridge.SemiGud.rmtv_H1, Bridge.SemiGud.rmtv_U1, Bridge.SemiGud.rmtv_T1]
   field_simp
   ring
 
-theorem rmtv_jump_isothermal (p : RmtvJump.P) : RmtvJump.T1 p = p.T2 := by
-  simp only [epv_tree, epv_leaf]
+theorem rmtv_jump_isothermal (p : RmtvJump.P) : RmtvJump.T1 p = p.T2 :=
+  Bridge.SemiGud.rmtv_T1 p
 
 theorem rmtv_jump_energy (γ : ℝ) (p : RmtvJump.P) (hU : 1 - p.U2 ≠ 0) (hT : p.T2 ≠ 0) (hg : γ - 1 ≠ 0) :
     rmtvEnergyFlux γ (RmtvJump.H1 p) (RmtvJump.U1 p) (RmtvJump.T1 p) (RmtvJump.W1 p)
       = rmtvEnergyFlux γ p.H2 p.U2 p.T2 p.W2 := by
-  simp only [rmtvEnergyFlux, epv_tree, epv_leaf]
+  simp only [rmtvEnergyFlux, Bridge.SemiGud.rmtv_H1, Bridge.SemiGud.rmtv_U1, Bridge.SemiGud.rmtv_T1,
+    Bridge.SemiGud.rmtv_W1]
   field_simp
   ring
 
@@ -91,7 +93,7 @@ theorem rmtv_isothermal_shock_partial (γ : ℝ) (p : RmtvJump.P) (hU : 1 - p.U2
 /-- the isothermal shock is compressive when the upstream flow is isothermally supersonic -/
 theorem rmtv_jump_compressive (p : RmtvJump.P) (hT : 0 < p.T2) (hM : p.T2 < (1 - p.U2) ^ 2) (hH : 0 < p.H2) :
     p.H2 < RmtvJump.H1 p := by
-  simp only [epv_tree, epv_leaf]
+  rw [Bridge.SemiGud.rmtv_H1]
   have h1 : 1 < (1 - p.U2) ^ 2 / p.T2 := by rw [lt_div_iff₀ hT]; linarith
   nlinarith
 
